@@ -44,7 +44,8 @@ type Req struct {
 	Embed    string   `json:"embed"`    // session: playground | evalenv | runtest
 	Files    map[string]string `json:"files"` // runsource: a tree of source files (relative path -> text); Main is run as `pangaea <dir>/<Main>`
 	Main     string   `json:"main"`
-	Helpers  []string `json:"helpers"`  // session: per program, the source of ./helper.pangaea next to it ("" = none)
+	Helpers  []string `json:"helpers"`
+	Shared   map[string]string `json:"shared"` // session: files every program of the session can reach (path relative to the session directory -> text)  // session: per program, the source of ./helper.pangaea next to it ("" = none)
 	Dir      string   `json:"dir"`      // session/runtest: scratch directory
 	N        int      `json:"n"`        // conc: goroutines
 	Fresh    bool     `json:"fresh"`    // prog: build a brand-new interpreter environment for this request
